@@ -29,7 +29,7 @@ ASSUMPTIONS = [
     'comparator-based operators (orderBy/thenBy) apply their selector per comparison and are excluded from per-element counts',
     'laziness expectations of generic catalogue calls come from the docstrings (:argType ...: lambda) where present',
 ]
-REQUIRED = {'generic.calls': 400, 'generic.eager_probes': 500, 'generic.lazy_probes': 100, 'exact.cases': 1000,
+REQUIRED = {'generic.calls': 400, 'generic.keyword_order_calls': 100, 'generic.eager_probes': 500, 'generic.lazy_probes': 100, 'exact.cases': 1000,
             'exact.unselected_operands': 300, 'counts.cases': 300, 'counts.lambda_applications': 1000,
             'reach.choose_overload': 2000, 'candidates.max_per_call': 4, 'static.lambda_params': 30,
             'form.and-or': 200, 'form.switch': 100, 'form.switchCase': 50, 'form.selectCase': 50, 'form.coalesce': 50,
@@ -160,6 +160,54 @@ def generic(mon, rec, part, parts):
             if first_lazy is not None and any(t in eager for t in trace[first_lazy:]):
                 rec.violation('lazy-argument-evaluated-before-eager:%s' % o.ident,
                               '%s: a lazy probe fired before an eager one (trace %r)' % (text, trace), rp)
+        # the same call with its arguments passed by keyword, in declaration order and reversed: eager arguments are
+        # evaluated in the order they are written, not in the order the callee declares them
+        if o.syntax[0] == 'call' and not o.no_kwargs and not o.varargs:
+            args = cat.basic_args(o)
+            first_kw = 1 if not o.is_function else 0
+            if args is not None and len(args) - first_kw >= 2 and all(
+                    re.match(r'^[^\W\d]\w*$', p.name) for p in o.params[first_kw:len(args)]):
+                for order in ('forward', 'reversed'):
+                    idxs = list(range(first_kw, len(args)))
+                    if order == 'reversed':
+                        idxs.reverse()
+                    vars_ = {}
+                    kwparts = []
+                    written = []       # (probe id, eager?)
+                    k = 0
+
+                    def spell(i):
+                        nonlocal k
+                        a = args[i]
+                        k += 1
+                        p = o.params[i]
+                        if a.kind == 'text':
+                            if p.tclass in ('keyword', 'strconst', 'expr', 'mappingrule', 'rulevalue'):
+                                return a.text, None
+                            return 'tick(%d, %s)' % (k, a.text), (k, not p.lazy)
+                        vars_['w%d' % i] = a
+                        return 'tick(%d, $w%d)' % (k, i), (k, not p.lazy)
+                    recv = None
+                    if first_kw:
+                        recv, info = spell(0)
+                        if info:
+                            written.append(info)
+                    for i in idxs:
+                        t, info = spell(i)
+                        kwparts.append('%s => %s' % (o.params[i].name, t))
+                        if info:
+                            written.append(info)
+                    text = ('%s.%s(%s)' % (recv, o.name, ', '.join(kwparts))) if recv else '%s(%s)' % (o.name, ', '.join(kwparts))
+                    out, trace = mon.run(text, vars_)
+                    rec.count('generic.calls')
+                    rec.count('generic.keyword_order_calls')
+                    eager_ids = [i_ for i_, e in written if e]
+                    rec.case((text, order), nontrivial=len(eager_ids) >= 2)
+                    seen = [t for t in trace if t in eager_ids]
+                    if out[0] == 'value' and seen != eager_ids:
+                        rec.violation('eager-keyword-arguments-out-of-order:%s' % o.ident,
+                                      '%s: eager probes fired in order %r, written order is %r' % (text, seen, eager_ids),
+                                      {'kind': 'generic', 'ident': o.ident, 'choice': 0})
         if idx % 60 == 0:
             rec.sample({'kind': 'generic', 'text': text, 'trace': trace})
 
